@@ -154,7 +154,7 @@ def run_capped(cases, res):
 def shard(shard, nshards, rng, tier, extra):
     res = Result()
     cases = []
-    for _ in range((4000 if tier == 'quick' else 100000) // nshards):
+    for _ in range((12000 if tier == 'quick' else 100000) // nshards):
         c = gen(rng)
         if c['given'] in ('n_word', 'n_frac', 'n_int+n_frac', 'n_int+n_word'): c['slack'] = rng.choice([0, 0, 1, 3, -1 if c['given'] == 'n_word' else 2] + ([-rng.randint(2, 16), -rng.randint(2, 6)] if c['given'] == 'n_word' else []))
         cases.append(c)
@@ -165,7 +165,7 @@ def shard(shard, nshards, rng, tier, extra):
             vals = [v] + ([Fraction(rng.randint(-2 ** j, 2 ** j), 4)] if rng.random() < 0.4 else [])
             cases.append({'vals': [str(t) for t in vals], 'signed': rng.choice([True, None]), 'given': 'n_word', 'shape': 'scalar' if len(vals) == 1 else 'array', 'carrier': 'float', 'slack': -rng.randint(2, f - 1)})
     run_cases(cases, res)
-    capped(rng, (300 if tier == 'quick' else 6000) // nshards, res)
+    capped(rng, (900 if tier == 'quick' else 6000) // nshards, res)
     return res
 
 def run(seed, tier):
